@@ -27,9 +27,10 @@ QUOTE = {
 NW_TOKENS = [t for t in TOKENS if "</nowiki" not in t] + ["{{t|x}}", "&"]
 NW_TOKENS.remove("&")
 NW_CORE = [t for t in CORE if "</nowiki" not in t] + ["{{t|x}}"]
-EMBED = ["top", "arg", "link", "item", "cell", "pagestart", "linestart", "cell_own_line"]
+EMBED = ["top", "arg", "link", "item", "cell", "pagestart", "linestart", "cell_own_line", "after_link", "after_bold"]
 CM_TOKENS = [t for t in TOKENS if t not in ("-->", "<!--", "<nowiki>")]
-CM_INNER = [t for t in CORE if t not in ("-->", "<nowiki>")] + ["{{t|x}}"]
+# (a comment that contains a nowiki start tag still begins outside nowiki: the comment wins, as in MediaWiki)
+CM_INNER = [t for t in CORE if t not in ("-->",)] + ["{{t|x}}"] + (["<nowiki>"] if "<nowiki>" not in CORE else [])
 CM_PAIR_Q = ["a", "\n", "{{", "}}", "|", "[[", "<b>", "<!--"]
 CM_PAIR_T = CM_PAIR_Q + ["]]", "==", "*", "</b>", "<pre>", "{|", "'''", " "]
 PLACEHOLDER_INPUTS = ["<nowiki>a\U00102041</nowiki>", "<nowiki>\U00102042</nowiki>b", "x<nowiki>[\U00102041]</nowiki>"]
@@ -63,6 +64,10 @@ def embed(c, e):
         return "{|\n|\n" + nw + "\n|}"
     if e == "item":
         return "*" + nw
+    if e == "after_link":
+        return "[[a]]" + nw       # not link trail
+    if e == "after_bold":
+        return "'''b'''" + nw
     return "{|\n|" + nw + "\n|}"
 
 
@@ -82,7 +87,7 @@ def check_nowiki(ctx, c, e):
     got = ctx.expand(text, template_fn=tf)
     want = {"top": "x" + q + "y", "arg": "[" + q + "]", "link": "[[a|" + q + "]]", "item": "*" + q,
             "cell": "{|\n|" + q + "\n|}", "pagestart": q, "linestart": "p\n" + q + "\nz",
-            "cell_own_line": "{|\n|\n" + q + "\n|}"}[e]
+            "cell_own_line": "{|\n|\n" + q + "\n|}", "after_link": "[[a]]" + q, "after_bold": "'''b'''" + q}[e]
     if got != want:
         out.append(("expand_quotes_exactly", got, want))
     exp_calls = ["t"] if e == "arg" else []
@@ -103,6 +108,10 @@ def check_nowiki(ctx, c, e):
         wantd = ["ROOT", {"largs": [["Tt"]]}, ["p\n" + q + "\nz"]]
     elif e == "cell_own_line":
         wantd = ["ROOT", {"largs": [["Tt"]]}, [["TABLE", [["TABLE_ROW", [["TABLE_CELL", ["\n" + q + "\n"]]]]]]]]
+    elif e == "after_link":
+        wantd = ["ROOT", {"largs": [["Tt"]]}, [["LINK", {"largs": [["a"]]}]] + ([q] if q else [])]
+    elif e == "after_bold":
+        wantd = ["ROOT", {"largs": [["Tt"]]}, [["BOLD", ["b"]]] + ([q] if q else [])]
     elif e == "item":
         wantd = ["ROOT", {"largs": [["Tt"]]}, [["LIST", {"sarg": "*"}, [["LIST_ITEM", {"sarg": "*"}, [q]]]]]]
     else:
